@@ -17,6 +17,23 @@ func parseStrUint(buf []byte) (u uint) {
 	return
 }
 
+// subSecMillis converts the digits of a SubSecTime value, a decimal fraction of a second
+// ("5" is 0.5s, "50" is 0.50s, "123456" is 0.123456s), to milliseconds.
+func subSecMillis(buf []byte) (ms uint16) {
+	digits := 0
+	for i := 0; i < len(buf) && digits < 3; i++ {
+		if buf[i] < '0' || buf[i] > '9' {
+			break
+		}
+		ms = ms*10 + uint16(buf[i]-'0')
+		digits++
+	}
+	for ; digits > 0 && digits < 3; digits++ {
+		ms *= 10
+	}
+	return ms
+}
+
 // trimNULBuffer removes trailing bytes from Buffer
 func trimNULBuffer(buf []byte) []byte {
 	for i := len(buf) - 1; i >= 0; i-- {
